@@ -192,6 +192,8 @@ def compare_stats_faults(run, tmp, pair, mbm):
         warnings.simplefilter('ignore')
         with RasterCompare(pair.src_path, pair.ref_path) as cmp:
             nblk = len(list(cmp.block_pairs(max_block_mem=mbm)))
+        with RasterCompare(pair.src_path, pair.ref_path) as cmp:
+            base_cmp = cmp.process(threads=1, max_block_mem=mbm)
         for k in (range(nblk) if not run.quick() else [0, nblk // 2, nblk - 1]):
             for T in (1, 3):
                 cmp = RasterCompare(pair.src_path, pair.ref_path)
@@ -228,11 +230,16 @@ def compare_stats_faults(run, tmp, pair, mbm):
                     run.fail(case, 'compare left its datasets open', signature=dict(kind='leak-reader'))
                 elif isinstance(again, BaseException):
                     run.fail(case, f'compare reader not reusable after the failure: {again}', signature=dict(kind='not-reusable'))
+                elif again is not None and repr(again) != repr(base_cmp):
+                    run.fail(case, 'the compare reader, used again after the failure, returns other statistics than a fresh reader',
+                             signature=dict(kind='stale-after-failure'))
         # stats: a failing dataset read / read_masks
         base = fusion.run_fuse(pair.src_path, pair.ref_path, tmp / 'c09_st.tif', model='gain-offset', kernel_shape=(3, 3), threads=1,
                                param=True, out_profile=dict(creation_options=dict(tiled=True, blockxsize=16, blockysize=16)))
+        with ParamStats(base.param_path) as ps0:
+            base_st = ps0.stats(threads=1)
         for meth in ('read_masks', 'dataset_mask', 'read'):
-            for k in ((0, 3) if run.quick() else (0, 1, 3, 7)):
+            for k in ((0, 1, 3) if run.quick() else (0, 1, 2, 3, 5, 7)):
                 for T in (1, 3):
                     ps = ParamStats(base.param_path)
                     case = dict(i=3 * 10**6 + k * 10 + T, op='stats', method=meth, fail_call=k, threads=T)
@@ -256,6 +263,13 @@ def compare_stats_faults(run, tmp, pair, mbm):
                         fin, r = sc.run_with_watchdog(lambda: ps.stats(threads=T), timeout=60)
                         ps._param_im = real
                         reached = cnt['n'] > k
+                        again = None
+                        if fin and reached:
+                            # the same object, used again without faults
+                            try:
+                                again = ps.stats(threads=1)
+                            except Exception as ex:
+                                again = ex
                     run.evaluations += 1
                     run.hist['stats fault runs'] += 1
                     if not reached:
@@ -268,3 +282,8 @@ def compare_stats_faults(run, tmp, pair, mbm):
                         run.fail(case, f'stats swallowed the failure of {meth} call {k}', signature=dict(kind='swallowed'))
                     elif not real.closed:
                         run.fail(case, 'stats left the parameter file open', signature=dict(kind='leak-reader'))
+                    elif isinstance(again, BaseException):
+                        run.fail(case, f'the stats reader could not be used again after the failure: {again}', signature=dict(kind='not-reusable'))
+                    elif again is not None and repr(again) != repr(base_st):
+                        run.fail(case, f'the stats reader, used again after a failed {meth} (call {k}), returns other figures than a fresh reader '
+                                 f'(e.g. {again[0]} vs {base_st[0]})', signature=dict(kind='stale-after-failure'))
